@@ -375,3 +375,41 @@ Proof.
   unfold spec_C20_lookup. rewrite lookup_eq_spec. destruct (spec_lookup p chain 0) as [[a b]|]; cbn;
     [rewrite !Nat.eqb_refl|]; reflexivity.
 Qed.
+
+(* ---- histories of registrations and lookups ---- *)
+Theorem run_lops_eq_spec ops : forall chain, run_lops chain ops = spec_run_lops chain ops.
+Proof.
+  induction ops as [|[l c|l bk key] r IH]; intros chain; cbn [run_lops spec_run_lops]; [reflexivity|apply IH|].
+  rewrite lookup_eq_spec, IH. reflexivity.
+Qed.
+
+Lemma opt_list_eqb_refl l : opt_list_eqb l l = true.
+Proof.
+  induction l as [|[[a b]|] r IH]; cbn; [reflexivity| |exact IH]. rewrite !Nat.eqb_refl. exact IH.
+Qed.
+
+Theorem model_meets_spec_lops depth ops : spec_C20_lops depth ops (run_lops (repeat [] depth) ops) = true.
+Proof. unfold spec_C20_lops. rewrite run_lops_eq_spec. apply opt_list_eqb_refl. Qed.
+
+(* a lookup made after a registration sees it: registering a shadowing component in the asking container
+   changes the answer at once *)
+Lemma reg_at_skipn_same chain l c : (l < length chain)%nat ->
+  exists cs rest, skipn l chain = cs :: rest /\ skipn l (reg_at chain l c) = (cs ++ [c]) :: rest.
+Proof.
+  revert l; induction chain as [|x r IH]; intros l Hl; [cbn in Hl; lia|].
+  destruct l as [|l]; cbn [skipn reg_at]; [eauto|]. apply IH. cbn in Hl. lia.
+Qed.
+
+Theorem lookup_sees_local_registration chain l c key bk :
+  (l < length chain)%nat -> look_pred bk key c = true ->
+  (forall cs rest, skipn l chain = cs :: rest -> existsb (look_pred bk key) cs = false) ->
+  exists i, lookup (look_pred bk key) (skipn l (reg_at chain l c)) l = Some (l, i).
+Proof.
+  intros Hl Hc Hnone. destruct (reg_at_skipn_same chain l c Hl) as (cs & rest & E1 & E2).
+  rewrite E2. cbn [lookup]. specialize (Hnone cs rest E1).
+  assert (Hf : forall n, find_idx (look_pred bk key) (cs ++ [c]) n = Some (n + length cs)%nat).
+  { clear -Hc Hnone. induction cs as [|x r IH]; intros n; cbn.
+    - rewrite Hc. f_equal. lia.
+    - cbn in Hnone. apply orb_false_iff in Hnone as [Hx Hr]. rewrite Hx, (IH Hr). f_equal. lia. }
+  rewrite Hf. eauto.
+Qed.
